@@ -420,6 +420,19 @@ func (op *redirOp) exec(fm *Frame, fops *[]formOwnedPort) Exception {
 	}
 
 	dstPort := growAccess(&fm.ports, dst)
+	srcFd := -1
+	if op.srcIsFd {
+		var err error
+		srcFd, err = evalForFd(fm, op.srcOp, true, "redirection source")
+		if err != nil {
+			return fm.errorp(op, err)
+		}
+		if srcFd == dst && *dstPort != nil {
+			// Duplicating an FD onto itself leaves it as it is; in particular
+			// a port owned by this form must not be closed.
+			return nil
+		}
+	}
 	if fop := *growAccess(fops, dst); fop.File || fop.Chan {
 		*growAccess(fops, dst) = formOwnedPort{File: false, Chan: false}
 		if heir := otherFdOfPort(fm.ports, *dstPort, dst); heir >= 0 {
@@ -433,10 +446,7 @@ func (op *redirOp) exec(fm *Frame, fops *[]formOwnedPort) Exception {
 	dstFop := growAccess(fops, dst)
 
 	if op.srcIsFd {
-		src, err := evalForFd(fm, op.srcOp, true, "redirection source")
-		if err != nil {
-			return fm.errorp(op, err)
-		}
+		src := srcFd
 		switch {
 		case src == -1:
 			// close
